@@ -59,6 +59,52 @@ class Result:
         self.distribution[key] = self.distribution.get(key, 0) + n
 
 
+class RunGuard:
+    """Bounds what the correspondence / oracle stage may consume. The real code runs in-process on generated
+    inputs (including malformed ones); a change that makes it allocate without bound or loop forever must not turn
+    the check into a hang (which a caller could only report as a timeout). Address space is capped (a MemoryError
+    raised inside /repo's code is then an ordinary 'code raised here' event for the plug-in, or a broken tie), and a
+    watchdog far above the normal running time (quick <= 40 s, thorough <= 15 min) ends the stage as a broken tie:
+    the property is no longer shown to hold."""
+
+    class Expired(Exception):
+        pass
+
+    def __init__(self, tier):
+        self.tier = tier
+        self.old = None
+        self.secs = int(os.environ.get("VERIF_STAGE_TIMEOUT", "1500" if tier == "quick" else "10800"))
+        self.mem = int(float(os.environ.get("VERIF_MEM_GB", "8")) * (1 << 30))
+
+    def _expired(self, signum, frame):
+        raise RunGuard.Expired(f"correspondence/oracle stage still running after {self.secs} s "
+                               f"(normal: under a minute in the quick tier)")
+
+    def arm(self):
+        import resource
+        import signal
+        try:
+            self.old = resource.getrlimit(resource.RLIMIT_AS)
+            hard = self.old[1]
+            cap = self.mem if hard == resource.RLIM_INFINITY else min(self.mem, hard)
+            resource.setrlimit(resource.RLIMIT_AS, (cap, hard))
+        except (ValueError, OSError):
+            self.old = None
+        signal.signal(signal.SIGALRM, self._expired)
+        signal.alarm(self.secs)
+
+    def disarm(self):
+        import resource
+        import signal
+        signal.alarm(0)
+        if self.old is not None:
+            try:
+                resource.setrlimit(resource.RLIMIT_AS, self.old)
+            except (ValueError, OSError):
+                pass
+            self.old = None
+
+
 def generic_replay(plug, prop, payload):
     """Replay for plug-ins without their own `replay`: every random choice of a run derives from
     (seed, property), so re-running the plug-in's streams with the recorded seed and tier on the
@@ -190,15 +236,21 @@ def main():
         ctx.tie_broken.append({"kind": "proof", **pf})
 
     # 4/5. correspondence and oracle search on the real code
+    guard = RunGuard(args.tier)
     try:
+        guard.arm()
         res = plug.run(ctx)
+        guard.disarm()
     except Exception as exc:
+        guard.disarm()
         traceback.print_exc()
         import subprocess as _sp
         frames = traceback.extract_tb(exc.__traceback__)
         in_repo = [f for f in frames if os.path.abspath(f.filename).startswith(os.path.abspath(common.REPO) + os.sep)]
-        infra = isinstance(exc, (OSError, MemoryError, TimeoutError, _sp.SubprocessError, ImportError)) \
-            or "model driver" in str(exc)
+        # (a MemoryError under RunGuard's cap, far above what the harness needs, comes from data whose size the
+        # real code determined: deterministic on this tree, hence a broken tie and not an infrastructure error)
+        infra = (isinstance(exc, (OSError, TimeoutError, _sp.SubprocessError, ImportError))
+                 or "model driver" in str(exc)) and not isinstance(exc, RunGuard.Expired)
         if infra and not in_repo:
             print("infrastructure error in correspondence/oracle harness")
             ctx.close()
